@@ -118,7 +118,9 @@ def _hermite(draw):
         t0 = float(draw(st.integers(-10, 10)))
         length = float(draw(st.sampled_from([1, 2, 3, 7, 16])))
         dtype = "float64"
-    return dict(part="hermite", shape=shape, coefs=coefs, t0=t0, L=sign * length, us=us, dtype=dtype, ends=ends)
+    # end values that coincide exactly (in some or all components) while the cubic between them is not constant
+    return dict(part="hermite", shape=shape, coefs=coefs, t0=t0, L=sign * length, us=us, dtype=dtype, ends=ends,
+                equal_ends=draw(st.sampled_from(["no", "no", "no", "all", "first"])))
 
 
 def parts(tier):
@@ -208,6 +210,11 @@ def _check_hermite(case):
     # Hermite data of the cubic P(u) = c0 + c1 u + c2 u^2 + c3 u^3,  u = (t - t0)/L, rounded to dtype
     p0 = c[0]
     p1 = (cl[0] + cl[1] + cl[2] + cl[3]).astype(dt)
+    if case.get("equal_ends", "no") == "all":
+        p1 = p0.copy()          # (any four arrays are the end data of a cubic: the reference below is built from the data)
+    elif case.get("equal_ends", "no") == "first" and p1.size:
+        p1 = p1.copy()
+        p1.reshape(-1)[0] = p0.reshape(-1)[0]
     m0 = (cl[1] / L).astype(dt)
     m1 = ((cl[1] + 2 * cl[2] + 3 * cl[3]) / L).astype(dt)
     # the piece is defined by the *rounded* data; the cubic through the rounded data, in longdouble:
